@@ -33,6 +33,8 @@ mod c17;
 
 use out::Out;
 
+pub static LAST_PANIC_MSG: std::sync::Mutex<String> = std::sync::Mutex::new(String::new());
+
 pub struct Args {
     pub stream: String,
     pub seed: u64,
@@ -61,7 +63,10 @@ fn main() {
         }
     }
     // silence panic messages from catch_unwind'ed cases (they are reported as outcomes)
-    std::panic::set_hook(Box::new(|_| {}));
+    // (the last message is remembered so that a panic of the harness itself — outside any catch_unwind — can be diagnosed)
+    std::panic::set_hook(Box::new(|info| {
+        if let Ok(mut g) = LAST_PANIC_MSG.lock() { *g = info.to_string(); }
+    }));
     let mut out = Out::default();
     // run on a big stack: deep expressions
     let stream = args.stream.clone();
@@ -99,7 +104,7 @@ fn main() {
         .unwrap()
         .join();
     if res.is_err() {
-        eprintln!("harness thread panicked");
+        eprintln!("harness thread panicked: {}", LAST_PANIC_MSG.lock().map(|g| g.clone()).unwrap_or_default());
         std::process::exit(3);
     }
 }
